@@ -387,7 +387,7 @@ fn c09_through_cli<T: Autocomplete + Help>(line: &str, parse: ParseFn, via: ViaP
     let mut cmd = vec![0u8; cap].into_boxed_slice();
     let mut hist = vec![0u8; 0].into_boxed_slice();
     let sink = MonSink::new();
-    let script = vec![HAction { writes: vec![], set_prompt: None, fail: false }];
+    let script = vec![HAction { writes: vec![], set_prompt: None, fail: false, reject: false }];
     let mut rig: Rig<'_, T> = Rig::build(&mut cmd, &mut hist, 0, false, sink.clone(), RecProc::new(script, Some(parse))).expect("build");
     for &b in line.as_bytes() {
         rig.byte(b).expect("sink never fails");
@@ -997,6 +997,12 @@ fn parse_through_cli<T: Autocomplete + Help>(line: &str, parse: ParseFn) -> Opti
     rig.proc.log.first().and_then(|r| r.parsed.clone())
 }
 
+fn declares_short_h(d: &Decl, path: &[String]) -> bool {
+    (0..path.len()).any(|k| {
+        resolve_path(d, &path[..=k]).map(|v| v.fields.iter().any(|f| matches!(&f.kind, FieldKind::Named { short: Some('h'), .. }))).unwrap_or(false)
+    })
+}
+
 pub fn gen_help_lines(d: &Decl, rng: &mut Rng, reps: usize) -> Vec<HelpCase> {
     let mut out = vec![];
     out.push(HelpCase { line: "help".into(), kind: "list", about: About::List });
@@ -1011,6 +1017,11 @@ pub fn gen_help_lines(d: &Decl, rng: &mut Rng, reps: usize) -> Vec<HelpCase> {
             out.push(HelpCase { line: render_tokens(&t, rng), kind: "help-command", about: About::Path(p.clone()) });
             // p1 .. pn [own options / values] -h|--help at any boundary after pn
             let v = resolve_path(d, p).unwrap();
+            if declares_short_h(d, p) {
+                // a command on the path has a `-h` option of its own: with the help facility on, what `-h` between its
+                // options means is not decided by the statement (only builds without help can use that option)
+                continue;
+            }
             let wp = rng.chance(50);
             let mut t = path_tokens(d, p, rng, wp);
             let base = t.len();
@@ -1046,6 +1057,9 @@ pub fn gen_help_lines(d: &Decl, rng: &mut Rng, reps: usize) -> Vec<HelpCase> {
     // value, some clustered with a flag) plus a help option somewhere after the last path name
     for p in &paths {
         for _ in 0..reps {
+            if declares_short_h(d, p) {
+                continue;
+            }
             if let Some((t, leaf_at)) = agreement_tokens(d, p, rng) {
                 let plain = render_tokens(&t, rng);
                 let mut th = t.clone();
@@ -1171,7 +1185,11 @@ pub fn judge_help(d: &Decl, hc: &HelpCase, rows: &[String]) -> Vec<(&'static str
                     }
                 }
             }
-            let others: Vec<&Vec<String>> = wrows.iter().filter(|w| w.first().map(|x| x != "Usage:").unwrap_or(false)).collect();
+            let mut others: Vec<&Vec<String>> = wrows.iter().filter(|w| w.first().map(|x| x != "Usage:").unwrap_or(false)).collect();
+            // the entry of the built-in help option is not one of the declaration's (which may have a `-h` of its own)
+            if let Some(i) = others.iter().position(|w| w.len() >= 2 && w[0] == "-h," && w[1] == "--help") {
+                others.remove(i);
+            }
             for f in &v.fields {
                 match &f.kind {
                     FieldKind::Positional => {
